@@ -3,7 +3,11 @@
 import json, os, subprocess, sys
 ROOT = os.path.dirname(os.path.dirname(os.path.abspath(__file__)))
 rel, line, sub, ids = sys.argv[1], int(sys.argv[2]), sys.argv[3], sys.argv[4].split(",")
-out = subprocess.run([os.path.join(ROOT, "build", "mutate"), "/repo/" + rel], stdout=subprocess.PIPE, text=True).stdout
+mutate = os.path.join(ROOT, "build", "mutate")
+if not os.path.exists(mutate):
+    subprocess.run(["go", "build", "-o", mutate, "."], cwd=os.path.join(ROOT, "tools", "mutate"),
+                   env=dict(os.environ, GOFLAGS="-mod=mod", GOPROXY="off", GOSUMDB="off", GOTOOLCHAIN="local"), check=True)
+out = subprocess.run([mutate, "/repo/" + rel], stdout=subprocess.PIPE, text=True).stdout
 ms = [json.loads(l) for l in out.splitlines() if l.startswith("{")]
 ms = [m for m in ms if m["line"] == line and sub in m["desc"]]
 if not ms:
